@@ -72,7 +72,16 @@ func drawOps(t *kernel.Tape, dir byte, secretsMode bool, allowBig bool) []*op {
 			}
 			continue
 		}
-		switch t.Choose("opkind", 3) {
+		switch t.Choose("opkind", 4) {
+		case 3:
+			// a secret on a stream that is already encrypting: the toggle must leave it encrypting
+			sv := mk(1 + t.Choose("secn", 40))
+			for j := range sv {
+				if sv[j] == 0 {
+					sv[j] = 'z'
+				}
+			}
+			ops = append(ops, &op{kind: "secret", frames: [][]byte{sv}, protected: true})
 		case 0:
 			ops = append(ops, &op{kind: "msg", frames: [][]byte{mk(size())}, protected: true})
 		case 1:
